@@ -118,6 +118,11 @@ class Source:
         return self.buf.popleft()
 
 
+class LayoutChanged(Exception):
+    """the generators of annet.annlib.tabparser no longer keep their state in the locals the BFS reads (a refactoring):
+    the explicit-state part cannot run; the exhaustive-text part does not depend on it"""
+
+
 class Chain:
     def __init__(self, comments=COMMENTS):
         from annet.annlib import tabparser
@@ -169,7 +174,10 @@ class Chain:
             return END
         fo, fi = self.outer.gi_frame, self.inner.gi_frame
         lo, li = fo.f_locals, fi.f_locals
-        return (tuple(li["indents"]), li["curr_level"], li["g_level"], tuple(lo["stack"]))
+        try:
+            return (tuple(li["indents"]), li["curr_level"], li["g_level"], tuple(lo["stack"]))
+        except KeyError as e:
+            raise LayoutChanged("local %s of the indent-stack generators is gone" % e)
 
 
 _ERR_RE = re.compile(r"line (\d+): (.*)$", re.S)
@@ -301,6 +309,16 @@ def core_states():
     global _CORE
     if _CORE is not None:
         return _CORE
+    try:
+        return _core_states()
+    except (LayoutChanged, RuntimeError, AttributeError) as e:
+        _CORE = {"hist": collections.OrderedDict(), "order": [], "transitions": 0, "closed": False,
+                 "layout_changed": "%s: %s" % (type(e).__name__, e)}
+        return _CORE
+
+
+def _core_states():
+    global _CORE
     hist = collections.OrderedDict()
     hist[INIT] = []
     queue = collections.deque([INIT])
@@ -327,6 +345,13 @@ def core_states():
 
 def run_bfs(block, ctx):
     core = core_states()
+    if core.get("layout_changed"):
+        # not a verdict about the property: the state abstraction does not fit this tree; reported as not exhaustive
+        ctx.capped = True
+        if block["i"] == 0:
+            ctx.notes.append("BFS part skipped (%s); the exhaustive-text part ran" % core["layout_changed"])
+            ctx.outcomes["bfs-skipped:generator-frame-layout-changed"] += 1
+        return
     hist = dict(core["hist"])
     if block["i"] == 0:
         ctx.extra["core_prepass_states"] += len(core["order"])
